@@ -291,14 +291,14 @@ def _nontrivial(t1, t2, offset, max_diff):
 def run(ctx):
     nslots = ctx.pick(6, 8)
     masks = list(range(1, 2**nslots))
-    modes = ("quat", ) if not ctx.thorough else ("quat", )
+    modes = ("quat+read", ) if not ctx.thorough else ("quat", "quat+read")
     acc = pmap_acc(ctx, __name__, "shard_run",
                    [(nslots, s, modes, ctx.tier) for s in shard(masks, 64)])
     # storage-mode dimension, exhaustively on a smaller grid
     small = ctx.pick(4, 5)
     acc.merge(
         pmap_acc(ctx, __name__, "shard_run",
-                 [(small, s, ("se3", "quat"), ctx.tier)
+                 [(small, s, ("se3", "quat", "se3+read", "quat+read"), ctx.tier)
                   for s in shard(range(1, 2**small), 16)]))
     # F3's published witness, literally (off-grid stamps)
     case = {
@@ -314,7 +314,10 @@ def run(ctx):
     acc.rule = (
         "all pairs (A,B) of non-empty subsets of a %d-slot timestamp grid "
         "(spacing 0.25) x B-jitter {none,+0.125 on odd slots} x max_diff %s x "
-        "offset %s x epoch %s, plus both storage modes on the %d-slot grid; "
+        "offset %s x epoch %s (trajectories built from positions+quaternions"
+        " with all cached views populated; thorough: also un-cached), plus "
+        "{matrices, positions+quaternions} x {nothing cached, all views "
+        "cached} on the %d-slot grid; "
         "non-trivial = a counterpart is contested by two poses or a nearest "
         "counterpart lies exactly at max_diff" %
         (nslots, MAX_DIFFS, OFFSETS, EPOCHS, small))
